@@ -46,7 +46,22 @@ def parse_program(source: str):
     )
 
 
-def init_state(source: str, extra_sources=()) -> State:
+_RAILS_CONFIG = [None]
+
+
+def small_rails_config():
+    """A real (small) RailsConfig object, as LLMRails puts into every State it creates."""
+    if _RAILS_CONFIG[0] is None:
+        from nemoguardrails import RailsConfig
+
+        _RAILS_CONFIG[0] = RailsConfig.from_content(
+            colang_content="flow main\n  match VfNever()\n",
+            yaml_content='colang_version: "2.x"\nmodels: []\ninstructions:\n  - type: general\n    content: "x"\n',
+        )
+    return _RAILS_CONFIG[0]
+
+
+def init_state(source: str, extra_sources=(), with_rails_config=False) -> State:
     """Fresh interpreter state for a program (uids restart at 0)."""
     UIDS.n = 0
     CHOICE.begin([])
@@ -54,7 +69,7 @@ def init_state(source: str, extra_sources=()) -> State:
     for s in extra_sources:
         flows.extend(parse_program(s)["flows"])
     config = create_flow_configs_from_flow_list(flows)
-    state = State(flow_states=[], flow_configs=config)
+    state = State(flow_states=[], flow_configs=config, rails_config=small_rails_config() if with_rails_config else None)
     sm.initialize_state(state)
     return state
 
